@@ -36,6 +36,9 @@ HART_COLS = ["Container", "Tabulator", "Batch Name", "Number of Ballots"]
 SAMPLE_KINDS = ["list", "list", "array", "array", "tuple", "iter", "gen"]
 
 
+_SUB_TABS = ["a", "m", "an", "tom", "p", "hant", "Phantom", "phantom1", " phantom", "t", "phanto", "ant"]
+
+
 def mk_rows(vendor, sizes, rng=None, style="int"):
     """distinct (tab, batch) labels; extra = [cart, tray] (Dominion) or [container] (Hart)"""
     rows = []
@@ -44,12 +47,15 @@ def mk_rows(vendor, sizes, rng=None, style="int"):
             tab, batch = 10 + i // 3, 100 + i
         elif style == "str":
             tab, batch = f"T{i // 2}", f"B{i}"
+        elif style == "sub":        # tabulator labels that are pieces / variants of the word the code uses for the
+            # batch it appends itself ("phantom"): `in` on a string, startswith, casefold, strip (round 9)
+            tab, batch = _SUB_TABS[(i // 2) % len(_SUB_TABS)], i + 1
         elif style == "names":      # named tabulators / carts / trays, numbered batches
             tab, batch = f"T{i // 2}", i + 1
         else:  # same tabulator everywhere, batches 1..n (the Hart test's layout)
             tab, batch = 1, i + 1
         extra = [1 + i // 4, i + 1] if vendor == "dominion" else [("Mail" if i % 2 == 0 else "EV")]
-        if style in ("str", "names") and vendor == "dominion":
+        if style in ("str", "names", "sub") and vendor == "dominion":
             extra = [f"C{1 + i // 4}", f"Y{i + 1}"]      # cart / tray names (a manifest read with dtype=str)
         rows.append({"tab": tab, "batch": batch, "size": int(sz), "extra": extra})
     return rows
@@ -203,7 +209,7 @@ def with_index(rng, case):
 def manifest_case(rng, vendor, sizes, style=None):
     T = sum(sizes)
     M, c = rand_bounds(rng, T)
-    style = style or rng.choice(["int", "int", "str", "one", "names"])
+    style = style or rng.choice(["int", "int", "str", "one", "names", "sub"])
     return {"kind": "manifest", "vendor": vendor, "rows": mk_rows(vendor, sizes, style=style), "max_cards": M,
             "n_cvrs": c, "all": all_range(M), "sample": rand_sample(rng, vendor, M), "container": rng.choice(SAMPLE_KINDS)}
 
@@ -246,7 +252,7 @@ def gen_options(rng):
         c = manifest_case(rng, vendor, sizes)
     elif u < 0.9:
         M = T + rng.choice([0, 0, 1, 2, 4])
-        style = rng.choice(["int", "str", "names"]) if vendor == "dominion" else rng.choice(["int", "str", "one"])
+        style = rng.choice(["int", "str", "names", "sub"]) if vendor == "dominion" else rng.choice(["int", "str", "one", "sub"])
         c = cvr_case(vendor, sizes, M, rng, style=style, drop=rng.choice([0, 0, 0, 1]))
     else:
         M, k = rand_bounds(rng, T)
@@ -293,7 +299,7 @@ def gen_main(rng, n, tier):
             yield with_index(rng, manifest_case(rng, vendor, sizes))
         elif u < 0.90:
             M = T + rng.choice([0, 0, 1, 2, 4])
-            style = rng.choice(["int", "str", "names"]) if vendor == "dominion" else rng.choice(["int", "str", "one"])
+            style = rng.choice(["int", "str", "names", "sub"]) if vendor == "dominion" else rng.choice(["int", "str", "one", "sub"])
             c = cvr_case(vendor, sizes, M, rng, style=style, drop=rng.choice([0, 0, 0, 1, 2]))
             if rng.chance(0.3):
                 c = malform(rng, c)
